@@ -30,9 +30,10 @@ def sh(cmd, cwd=None, inp=None, timeout=None):
 
 
 # ------------------------------------------------------------------------------------------ (P) proofs
-def ensure_lean(build):
-    """regenerate the tables from /repo, build the Lean library and the driver; returns (ok, log, driver path)"""
-    import fcntl
+def ensure_lean(build, prop=None):
+    """regenerate the tables from the repo, build the Lean library and the driver, audit the obligations – all under one lock
+    (concurrent checks may run against different trees); returns (ok, log, private copy of the driver, audit dict)"""
+    import fcntl, shutil
     os.makedirs(WORK, exist_ok=True)
     lock = open(os.path.join(WORK, "lean.lock"), "w")
     fcntl.flock(lock, fcntl.LOCK_EX)
@@ -44,7 +45,15 @@ def ensure_lean(build):
         except ImportError:
             pass
         rc, out, err = sh(["lake", "build", "Vata", "vdriver"], cwd=LEAN)
-        return rc == 0, tlog + out + err, os.path.join(LEAN, ".lake", "build", "bin", "vdriver")
+        if rc != 0:
+            # the library may fail (a theorem over the regenerated table no longer checks) while the driver still builds
+            sh(["lake", "build", "vdriver"], cwd=LEAN)
+        drv = os.path.join(LEAN, ".lake", "build", "bin", "vdriver")
+        priv = os.path.join(WORK, f"vdriver-{os.getpid()}")
+        if os.path.exists(drv):
+            shutil.copy(drv, priv)
+        aud = audit(prop, rc == 0, tlog + out + err) if prop else None
+        return rc == 0, tlog + out + err, priv, aud
     finally:
         fcntl.flock(lock, fcntl.LOCK_UN)
         lock.close()
@@ -56,11 +65,18 @@ def audit(prop, lean_ok, lean_log):
     names = obl.get(prop, [])
     res = dict(obligations=len(names), discharged=0, names=names, broken=[], axioms={}, forbidden_tokens=[])
     if not lean_ok:
-        # find which modules failed; every obligation is unconfirmed
-        res["broken"] = [dict(theorem=n, reason="lake build failed") for n in names]
+        # which modules failed?  obligations proved in modules that still build are confirmed individually below through
+        # the modules that were built; the others are reported as broken
+        failed = re.findall(r"^- (Vata[\w.]*)$", lean_log, flags=re.M)
+        res["failed_modules"] = failed
         res["build_log_tail"] = lean_log[-3000:]
-        return res
-    src = "import Vata\n" + "".join(f"#print axioms {n}\n" for n in names)
+        mods = [l.split()[1] for l in open(os.path.join(LEAN, "Vata.lean")) if l.startswith("import ")]
+        good = [m for m in mods if m not in failed and os.path.exists(os.path.join(LEAN, ".lake", "build", "lib", "lean", *m.split(".")) + ".olean")]
+        src = "".join(f"import {m}\n" for m in good) + "".join(f"#print axioms {n}\n" for n in names)
+    else:
+        src = "import Vata\n" + "".join(f"#print axioms {n}\n" for n in names)
+    if False:
+        pass
     path = os.path.join(WORK, f"Audit_{prop}.lean")
     open(path, "w").write(src)
     rc, out, err = sh(["lake", "env", "lean", path], cwd=LEAN)
@@ -284,8 +300,9 @@ def main():
         print(f"VIOLATION property={prop} replay={rp} no-failing-input-found")
         write_evidence(prop, tier, seed, cfg, dict(obligations=0, discharged=0, names=[], broken=[]), [], [], time.time() - t0, 1, {})
         return 1
-    lean_ok, lean_log, driver = ensure_lean(build)
-    aud = audit(prop, lean_ok, lean_log)
+    lean_ok, lean_log, driver, aud = ensure_lean(build, prop)
+    import atexit
+    atexit.register(lambda: os.path.exists(driver) and os.remove(driver))
     if not os.path.exists(driver):
         print("internal error: driver not built\n" + lean_log[-3000:])
         return 2
